@@ -295,7 +295,10 @@ class Interp:
         order = []
         for s, rv in outs:
             try:
-                key = (self._vkey(rv), frozenset(s.mem.items()), frozenset(s.pnull.items()), frozenset(s.ghost.items()), s.stack)
+                # paths that decided differently about a variable's access mode are kept apart:
+                # the access-control rules (C08) correlate effects with that decision
+                acc = self._part_key(s)
+                key = (self._vkey(rv), frozenset(s.mem.items()), frozenset(s.pnull.items()), frozenset(s.ghost.items()), s.stack, acc)
             except TypeError:
                 key = id(s)
             if key not in groups:
@@ -562,42 +565,47 @@ class Interp:
         exits.extend(ex0)
         if not back:
             return exits
-        first_traces = tuple(s.trace for s in back)
-        # fixpoint over the steady-state head (states that reach the head again)
-        cur = None
-        it = 0
-        while True:
-            it += 1
-            if it > 40:
-                import os
-                if os.environ.get('CATSA_DEBUG'):
-                    a, b = self._dbg_prev, cur
-                    print('LOOP NONCONV line', line)
-                    for kx in set(a.mem) | set(b.mem):
-                        if a.mem.get(kx) != b.mem.get(kx):
-                            print('   mem', kx, a.mem.get(kx), b.mem.get(kx))
-                    print('   iv', {x: (a.facts.iv.get(x), b.facts.iv.get(x)) for x in set(a.facts.iv) | set(b.facts.iv) if a.facts.iv.get(x) != b.facts.iv.get(x)})
-                    print('   ub', {repr(Lin(x, 0)): (a.facts.ub.get(x), b.facts.ub.get(x)) for x in set(a.facts.ub) | set(b.facts.ub) if a.facts.ub.get(x) != b.facts.ub.get(x)})
-                    print('   ex', {x: (a.facts.ex.get(x), b.facts.ex.get(x)) for x in set(a.facts.ex) | set(b.facts.ex) if a.facts.ex.get(x) != b.facts.ex.get(x)})
-                    print('   ghost', a.ghost, b.ghost, 'pnull', a.pnull == b.pnull)
+        # steady-state heads, kept apart by what the path has decided about access modes
+        # (disjunctive invariant: the access-control rules need that correlation)
+        pending = {}
+        for b in back:
+            pending.setdefault(self._part_key(b), []).append(b)
+        heads = {}
+        firsts = {}
+        rounds = 0
+        while pending:
+            rounds += 1
+            if rounds > 60:
                 raise Unsupported('loop at line %s does not stabilise' % line)
-            self._dbg_prev = cur
-            cand = back if cur is None else [cur] + back
+            pk, arrivals = pending.popitem()
+            cur = heads.get(pk)
+            if cur is None:
+                firsts[pk] = tuple(s.trace for s in arrivals)
+            it = heads.get(('n', pk), 0) + 1
+            heads[('n', pk)] = it
+            cand = arrivals if cur is None else [cur] + arrivals
             new = self.join(cand, tag, base, widen=(it >= 2), prev=cur, hard=(it >= 7))
             if cur is not None and self.same_state(cur, new):
-                break
-            cur = new
-            back, _ = one_pass(cur)
-            if not back:
-                break
-        # final passes from the invariant: A collects the effects of continuing iterations,
-        # B produces the exits, whose effect graph contains those of A as optional predecessors
-        cur.trace = TN(None, first_traces)
-        backA, _ = one_pass(cur)
-        cur.trace = TN(None, (cur.trace,) + tuple(s.trace for s in backA))
-        _, exf = one_pass(cur)
-        exits.extend(exf)
+                continue
+            heads[pk] = new
+            bk, _ = one_pass(new)
+            for b in bk:
+                pending.setdefault(self._part_key(b), []).append(b)
+        for pk, cur in heads.items():
+            if isinstance(pk, tuple) and pk and pk[0] == 'n':
+                continue
+            # final passes from the invariant: A collects the effects of continuing iterations,
+            # B produces the exits, whose effect graph contains those of A as optional predecessors
+            cur.trace = TN(None, firsts[pk])
+            backA, _ = one_pass(cur)
+            cur.trace = TN(None, (cur.trace,) + tuple(s.trace for s in backA))
+            _, exf = one_pass(cur)
+            exits.extend(exf)
         return exits
+
+    def _part_key(self, s):
+        # the access mode of the variable the machine is working on (canonical object names of the explorer)
+        return tuple((a, s.facts.iv.get(a), s.facts.ex.get(a)) for a in ('VAR.access', 'UVAR.access') if a in s.facts.iv)
 
     # ---- join -------------------------------------------------------------
     def same_state(self, a, b):
